@@ -98,6 +98,15 @@ pub fn false_witnesses(a: &Agreed, rng: &mut impl RngCore) -> Vec<Witness> {
             }
         }
     }
+    // the lie spread over both messages with opposite signs (state: v - d, close state: v + d)
+    for (slot, nm) in [(0usize, "cid"), (3usize, "cust"), (4usize, "merch")] {
+        for (dn, d) in [("1", one), ("10^6", Scalar::from(1_000_000u64))] {
+            let (mut s, mut c) = (st, cl);
+            s[slot] -= d;
+            c[slot] += d;
+            add(&format!("{}-{}/state,+{}/close", nm, dn, dn), s, c, &[]);
+        }
+    }
     {
         // swap and move (sum kept)
         let (mut s, mut c) = (st, cl);
@@ -371,6 +380,35 @@ fn run_tuple(c: &mut Ctx, m: &'static Merchant, template: &Trace, label: &str, c
             Some((true, _)) => return c.inconclusive("C01: challenge changed between draft and final proof with identical first messages"),
             Some((false, _)) => return c.inconclusive("C01: positive control (shadow prover, true statement) was rejected — cannot observe"),
             None => return,
+        }
+    }
+    // a real customer's proof for channel id A presented to the merchant under an id B that differs from
+    // A in one bit (every byte position over the tuples of a run): must not establish channel B
+    {
+        let ctxb = a.context.clone();
+        if let Ok((_s, proof)) = crate::session::Sess::request(m, &mut rng, cid, cust, merch, &ctxb) {
+            let bit = (rng.next_u32() as usize) % 256;
+            let mut idb = cid.to_bytes();
+            idb[bit / 8] ^= 1 << (bit % 8);
+            if let Ok(cid_b) = dec::<ChannelId>(&idb) {
+                c.eval();
+                c.distinct(&format!("other-channel-id-bit/{}", bit));
+                match (submit_establish(m, &mut rng, &cid, cust, merch, &proof, &ctxb), submit_establish(m, &mut rng, &cid_b, cust, merch, &proof, &ctxb)) {
+                    (Ok(own), Ok(other)) => {
+                        if own.accepted.is_none() {
+                            c.inconclusive("C01: a real customer's establish proof was rejected under its own tuple");
+                        } else if other.accepted.is_some() {
+                            c.violation(
+                                "C01 proof-for-one-channel-id-accepted-for-another differing-in=one-bit",
+                                json!({"bit": bit, "agreed": agreed_json(&a)}),
+                            );
+                        } else {
+                            c.count("real_proofs_rejected_under_other_channel_id", 1);
+                        }
+                    }
+                    (Err(e), _) | (_, Err(e)) => c.inconclusive(&e),
+                }
+            }
         }
     }
     let ws = false_witnesses(&a, &mut rng);
